@@ -326,6 +326,61 @@ def _shape(w, s, t):
     return '%s<=%s' % (sh(s), sh(t))
 
 
+def h_builtins(eng, lang):
+    """all pairs of a language's built-in types (arrays and function types instantiated): soundness against
+    the declared built-in hierarchy (read from the data attributes), reflexivity"""
+    from src.ir import BUILTIN_FACTORIES
+    f = BUILTIN_FACTORIES[lang]
+    base = list(f.get_non_nothing_types())
+    if hasattr(f, 'get_primitive_types'):
+        base += f.get_primitive_types()
+    num, integer = f.get_number_type(), f.get_integer_type()
+    args = [integer, num, tp.WildCardType(num, tp.Covariant), tp.WildCardType(integer, tp.Contravariant), tp.WildCardType()]
+    types = []
+    for t in base:
+        if isinstance(t, tp.TypeConstructor):
+            if len(t.type_parameters) == 1:
+                types += [t.new([a]) for a in args]
+        else:
+            types.append(t)
+    f1 = f.get_function_type(1)
+    types += [f1.new([integer, num]), f1.new([num, integer]), f1.new([tp.WildCardType(integer, tp.Contravariant),
+                                                                      tp.WildCardType(num, tp.Covariant)])]
+    w = World()
+    w.top = w.snap(f.get_any_type())
+    terms = [w.snap(t) for t in types]
+    obs = []
+    bad = None
+    npos = 0
+    for i, s_ in enumerate(types):
+        for j, t_ in enumerate(types):
+            r = bool(s_.is_subtype(t_))
+            npos += r
+            if r and not w.sub(terms[i], terms[j]) and bad is None:
+                bad = (i, j)
+    if bad:
+        i, j = bad
+        obs.append(Ob('unsound-builtin|%s|%s<=%s' % (lang, _bshape(terms[i]), _bshape(terms[j])), False,
+                      dict(language=lang, S=str(types[i]), T=str(types[j]), S_class=type(types[i]).__name__,
+                           T_class=type(types[j]).__name__)))
+    for i, t_ in enumerate(types):
+        if not t_.is_subtype(t_):
+            obs.append(Ob('reflexive-builtin|%s' % lang, False, dict(language=lang, T=str(t_))))
+            break
+    eng.event('builtins')
+    eng.notes['sample'] = dict(language=lang, types=len(types), positive=npos)
+    obs.append(Ob('builtins-done', True))
+    return obs
+
+
+def _bshape(x):
+    if x[0] == 'P':
+        return '%s<%s>' % (x[1], ','.join(_bshape(a) for a in x[2]))
+    if x[0] == 'W':
+        return '*' if x[2] is None else '%s %s' % ({1: 'out', 2: 'in', 0: 'inv'}[x[1]], _bshape(x[2]))
+    return x[2] if x[0] == 'B' else x[0]
+
+
 # ---------------------------------------------- java assignability (soundness only)
 def h_java_assign(eng):
     """java primitive/boxed/array assignability: is_assignable never contradicts the
@@ -392,6 +447,16 @@ def jobs(tier):
     out.append(Job('java-assignability', h_java_assign, {}, serial=True, functions=[jt.ParameterizedType.is_assignable
                                                                                   if hasattr(jt, 'ParameterizedType') else tp.ParameterizedType.is_assignable],
                    bounds='6x6 numeric types x primitive/boxed', outside=OUT))
+    for lang in ('java', 'kotlin', 'groovy', 'scala'):
+        out.append(Job('builtins-%s' % lang, h_builtins, dict(lang=lang), serial=True, crosscheck_every=0,
+                       functions=[tp.Builtin.is_subtype, tp.ParameterizedType.is_subtype, tp.TypeConstructor.__eq__],
+                       require_events=['builtins'],
+                       bounds='all pairs of the built-in types of %s (arrays, specialised arrays and Function1 instantiated '
+                              'with Int / Number / out Number / in Int / *)' % lang, outside=OUT))
+    out.append(Job('tables-depth2-n1', h_tables, dict(nmax=1, depth=2, two_param=False, builtins=False, trans=False, fixed_n=1),
+                   split_depth=4, functions=FUNCS, require_events=['pairs'], crosscheck_every=50, budget_s=900,
+                   bounds='tables with one class A, G<v X[:A]>, H<v Y[:A]> (5 supertype shapes): all pairs of ground types of '
+                          'depth <= 2 (types whose printed forms coincide included)', outside=OUT))
     if tier == 'quick':
         out.append(Job('tables-depth1-n3', h_tables, dict(nmax=3, depth=1, two_param=False, builtins=True, trans=True),
                        split_depth=4, functions=FUNCS, require_events=['pairs', 'nontrivial-positives', 'exactness-pairs'],
